@@ -54,6 +54,13 @@ def checkSetFrom (prev : Option Bytes) (bs : Bytes) : Except VErr Unit :=
       | none => checkSetFrom (some cur) rest
 termination_by bs.length
 
+/-- `for !it.Done() { Walk(inner, it.Next()) }` over already split items -/
+def walkItems (w : Option Bytes → Except VErr Unit) : List (Option Bytes) → Except VErr Unit
+  | [] => .ok ()
+  | a :: r => match w a with
+    | .error e => .error e
+    | .ok () => walkItems w r
+
 /-- `walkMap`: keys and values alternate; an odd item count makes `Next` panic. -/
 def walkPairs (wk wv : Option Bytes → Except VErr Unit) : List (Option Bytes) → Except VErr Unit
   | [] => .ok ()
@@ -94,7 +101,7 @@ def walk : ZTy → Option Bytes → Except VErr Unit
     | some body =>
       match ziterAll body with
       | .error er => .error (.iterPanic er)
-      | .ok items => items.forM (walk e)
+      | .ok items => walkItems (walk e) items
   | .map k v, b =>
     match b with
     | none => .ok ()
